@@ -37,3 +37,40 @@ Proof.
   intros index. unfold w_z, n_p, n_s, kpp, refractive_index, beam_refractive_index, index, pp_k_pp, idler_k_pp, pp_signed_period_on, sign_mul.
   rewrite cos_0. split; [lra|]. replace (2 / (1 * -1)) with (-2) by (field; lra). lra.
 Qed.
+
+(* a NON-VACUOUS witness for the hypotheses of the collinear-root theorem: dispersive index n(l) = 1 + l/4 (any direction,
+   any polarization), pump wavelength 1, signal wavelength 2 (idler 2): the unpoled mismatch is -pi/2, not 0 *)
+From SpdVerif Require Import Proofs.C04_collinear Proofs.C03_base.
+Lemma nonvacuous_collinear_dispersive :
+  let index := fun (l : R) (_ : vec) (_ : polarization) => 1 + l / 4 in
+  dkz_of index Type2_e_eo false (beam_new Ordinary 0 0 2 (1, 1)) (pump_new Ordinary 1 (1, 1)) PPOff = - (PI / 2) /\
+  dkz_of index Type2_e_eo false (beam_new Ordinary 0 0 2 (1, 1)) (pump_new Ordinary 1 (1, 1)) PPOff <> 0 /\
+  w_z index Ordinary Ordinary 0 0 2 1 (1, 1) (1, 1) PPOff <> 0 /\
+  (forall x, 0 < x -> w_z index Ordinary Ordinary 0 0 2 1 (1, 1) (1, 1) (PPOn x false) <> 0).
+Proof.
+  intros index. pose proof PI_RGT_0 as HPI.
+  assert (Hl2 : b_lambda (sigb Ordinary 0 0 2 (1, 1)) = 2) by (apply b_lambda_new; lra).
+  assert (Hl1 : b_lambda (pumpb Ordinary 1 (1, 1)) = 1) by (apply b_lambda_new; lra).
+  assert (Hns : n_s index Ordinary 0 0 2 (1, 1) = 3 / 2).
+  { unfold n_s, refractive_index, beam_refractive_index, index. fold (frequency_to_vacuum_wavelength (b_omega (sigb Ordinary 0 0 2 (1, 1)))).
+    unfold sigb, beam_new; cbn [b_omega]. rewrite frequency_to_vacuum_wavelength_new by lra. lra. }
+  assert (Hnp : n_p index Ordinary 1 (1, 1) = 5 / 4).
+  { unfold n_p, refractive_index, beam_refractive_index, index. fold (frequency_to_vacuum_wavelength (b_omega (pumpb Ordinary 1 (1, 1)))).
+    unfold pumpb, pump_new, beam_new; cbn [b_omega]. rewrite frequency_to_vacuum_wavelength_new by lra. lra. }
+  assert (Hw0 : w_z index Ordinary Ordinary 0 0 2 1 (1, 1) (1, 1) PPOff = 1).
+  { unfold w_z, kpp. rewrite Hns, Hnp, pp_k_pp_eq, cos_0. lra. }
+  assert (Hz : dkz_of index Type2_e_eo false (beam_new Ordinary 0 0 2 (1, 1)) (pump_new Ordinary 1 (1, 1)) PPOff = - (PI / 2)).
+  { change (dkz_c index Type2_e_eo Ordinary Ordinary 0 2 1 (1, 1) (1, 1) PPOff = - (PI / 2)).
+    rewrite (dkz_c_eq index Type2_e_eo Ordinary Ordinary 0 2 1 (1, 1) (1, 1) ltac:(lra) ltac:(lra) PPOff) by (rewrite Hw0; lra).
+    rewrite pp_k_eff_eq. unfold wavevector. rewrite !beam_wavevector_eq.
+    fold (n_s index Ordinary 0 0 2 (1, 1)) (n_p index Ordinary 1 (1, 1)). rewrite Hns, Hnp.
+    rewrite (sig_dir Ordinary 0 0 2 (1, 1)), (pump_dir Ordinary 1 (1, 1)), polar_0_0.
+    rewrite (sig_omega Ordinary 0 0 2 (1, 1)) by lra. rewrite (pump_omega Ordinary 1 (1, 1)) by lra.
+    rewrite Hl2, Hl1. unfold idler_wavelength. replace (2 * 1 / (2 - 1)) with 2 by field.
+    rewrite frequency_to_vacuum_wavelength_new by lra. rewrite beam_new_frequency_eq by lra.
+    unfold index, vsub, vscale, ez, vz, vx, vy, c_light; cbn [fst snd]. field. }
+  split; [exact Hz | split; [rewrite Hz; lra | split; [rewrite Hw0; lra|]]].
+  intros x Hx. unfold w_z, kpp. rewrite Hns, Hnp, pp_k_pp_eq, cos_0. unfold sign_val.
+  replace (2 / (-1 * x)) with (- (2 / x)) by (field; lra).
+  assert (0 < 2 / x) by (apply Rdiv_lt_0_compat; lra). lra.
+Qed.
